@@ -103,9 +103,19 @@ package modifiers
 //@   ensures [event] result ==> (len(ghost.evlog) == old(len(ghost.evlog)) + 1 && typeis(last(ghost.evlog), *events.ContactTimezoneChangedEvent))
 //@   ensures [no_event] !result ==> ghost.evlog == old(ghost.evlog)
 
+// field: 'modified' is reported, and the change event logged, exactly when the stored value of the field differs - facet by
+// facet, the text after truncation - from the one the contact had; otherwise the field map is untouched
 //@ func (m *FieldModifier) Apply
 //@   implements flows.Modifier.Apply
-//@   requires m != nil && contact != nil && EngRep(eng) && eng.(*engine.engine).options.MaxFieldChars >= 0
+//@   requires m != nil && contact != nil && EngRep(eng) && eng.(*engine.engine).options.MaxFieldChars >= 1 && m.field != nil && contact.fields != nil && fieldsOK(contact.fields)
+//@   letold beforeFV := contact.fields[m.field.Key()]
+//@   ensures [unmodified] !result ==> ((forall k string {contact.fields[k]} :: contact.fields[k] == old(contact.fields[k])) && ghost.evlog == old(ghost.evlog))
+//@   ensures [unmodified_same] !result ==> ((beforeFV == nil && m.value == "") || (beforeFV != nil && m.value != "" && beforeFV.Value.Text.native == sp_truncate(m.value, eng.(*engine.engine).options.MaxFieldChars)))
+//@   ensures [modified_changed] (result && contact.fields[m.field.Key()] != nil && beforeFV != nil) ==> !sameValue(contact.fields[m.field.Key()].Value, beforeFV.Value)
+//@   ensures [modified_not_nil_to_nil] result ==> !(contact.fields[m.field.Key()] == nil && beforeFV == nil)
+//@   ensures [others_untouched] forall k string {contact.fields[k]} :: k != m.field.Key() ==> contact.fields[k] == old(contact.fields[k])
+//@   ensures [event] result ==> (len(ghost.evlog) == old(len(ghost.evlog)) + 1 && typeis(last(ghost.evlog), *events.ContactFieldChangedEvent))
+//@   ensures [fields_ok] fieldsOK(contact.fields)
 
 // groups: only static groups are added / removed, never twice
 //@ func (m *GroupsModifier) Apply
